@@ -10,3 +10,7 @@ pub use segment::Segment;
 pub const LOG_EXTENSION: &str = "log";
 pub const INDEX_EXTENSION: &str = "index";
 pub const SEGMENT_MAX_SIZE_BYTES: u64 = 1000 * 1000 * 1000;
+
+#[cfg(kani)]
+#[path = "/verif/harness/server/hooks/segments.rs"]
+pub(crate) mod verif_hook;
